@@ -56,6 +56,9 @@ type Env struct {
 	OrigRepo string // /repo
 	Scratch  string
 	Race     bool
+	// Cold: this process executes exactly one simulated run and must not warm up
+	// lazily initialised library state first (cold-start stratum).
+	Cold bool
 }
 
 // Property is one engine.
